@@ -39,10 +39,13 @@ properties! {
     "C16" => c16,
     "C17" => c17,
     "C18" => c18,
+    "C19" => c19,
     "C20" => c20,
 }
 
 /// Number of worker processes.
+pub mod c19_costs;
+
 pub fn workers(_id: &str, _tier: Tier) -> usize {
     std::thread::available_parallelism().map(|n| n.get()).unwrap_or(8).min(16)
 }
